@@ -87,7 +87,7 @@ def main():
         fired = {}
         for p in PROPS:
             ev = os.path.join(pat, 'ev.json')
-            r = subprocess.run([os.path.join(ROOT, 'bin', 'sacheck'), '-prop', p, '-repo', pat, '-verif', ROOT, '-out', ev], env=ENV, capture_output=True, text=True)
+            r = subprocess.run([os.environ.get('SACHECK', os.path.join(ROOT, 'bin', 'sacheck')), '-prop', p, '-repo', pat, '-verif', ROOT, '-out', ev], env=ENV, capture_output=True, text=True)
             hits = [l for l in r.stdout.splitlines() if l.startswith('VIOLATED') or l.startswith('UNDECIDED') or l.startswith('ANALYSIS-FAILED')]
             if hits:
                 fired[p] = [h[:300] for h in hits[:4]]
